@@ -498,6 +498,13 @@ pub fn ext_obs_level<K: TKey>(e: &Enr<K>, tab: &mut Tab, level: u8) -> Value {
     let (o, r) = text_outcome::<K>(text.strip_prefix("enr:").unwrap_or(&text), tab);
     redec.insert("text_noprefix".into(), with_eq(o, r.as_ref(), e));
     m.insert("redec".into(), Value::Object(redec));
+    // the record's encoding decoded under every built-in key type (C11): outcome per key type
+    let mut rk = Map::new();
+    rk.insert("k256".into(), decode_outcome::<k256::ecdsa::SigningKey>(&enc, tab).0);
+    rk.insert("libsecp".into(), decode_outcome::<libsecp::SecretKey>(&enc, tab).0);
+    rk.insert("ed".into(), decode_outcome::<ed::SigningKey>(&enc, tab).0);
+    rk.insert("comb".into(), decode_outcome::<CombinedKey>(&enc, tab).0);
+    m.insert("redec_kts".into(), Value::Object(rk));
     m.insert("panics".into(), Value::Array(panics));
     Value::Object(m)
 }
